@@ -88,6 +88,15 @@ def check(pm: ProgramModel, ctx: Ctx) -> None:
     contexts: list[tuple[D, ...]] = [(d,) for d in domain_wf(ctx.tier) if d.n <= 4 and d.min <= 4 and d.max <= 4]
     contexts += [(d,) for d in REP2]     # again, with other values of the irrelevant fields
     contexts += list(itertools.product(REP2, repeat=2))
+    # larger arities and bounds: a closed form, a fast path or a table that is right up to four children
+    contexts += [(D(3, 5, 7),), (D(1, 7, 7),), (D(1, 1, 7),), (D(0, 1, 6),), (D(4, 4, 6),), (D(1, 12, 12),), (D(1, 1, 12),),
+                 (D(4, 7, 12),), (D(10, 11, 11),)]
+    contexts += [tuple(D(1 if i in (0, 9, 10) else 0, 1, 1) for i in range(11)) + (D(1, 2, 2), D(1, 1, 3))]
+    # every [a..b] over five and six children (seven and eight in the thorough tier): the share of allowed sizes, the
+    # distance of the bounds from 0 and from n, and the parity of n all vary
+    for n_ in ((5, 6) if ctx.tier == "quick" else (5, 6, 7, 8)):
+        contexts += [(D(lo, hi, n_),) for lo in range(0, n_ + 1) for hi in range(max(lo, 1), n_ + 1)]
+    contexts += [(D(0, 10, 12),), (D(2, 9, 12),), (D(0, 11, 12),), (D(6, 6, 12),)]
     if ctx.tier == "thorough":
         contexts += list(itertools.product(REP2[:5], repeat=3))
     bad: dict[str, list[str]] = {}
@@ -168,6 +177,20 @@ def check(pm: ProgramModel, ctx: Ctx) -> None:
                   bad=f"estimate {est!r} for a model with constraints '{cname}': the tree has {tree_exact} "
                       f"configurations, {exact} of them satisfy the constraints (estimate must equal the former and "
                       f"not be below the latter)")
+    from ..codec import export_models
+    for key_, fm, what_ in export_models(mb, ("IMPLIES", "OR", "EXCLUDES")):
+        try:
+            est = Interp(pm, max_depth=80).call(top, [fm])
+        except AbsRaise as exc:
+            est = ("raise", exc.what)
+        names = model_names(fm)
+        exact = sum(1 for s_ in all_selections(names) if model_valid(fm, s_))
+        tree_exact = sum(1 for s_ in all_selections(names) if model_valid(fm, s_, with_ctcs=False))
+        good = isinstance(est, int) and not isinstance(est, bool) and est >= exact and est == tree_exact
+        ctx.check(good, "C13-UPPER", f"model:large-{key_}", loc(top.unit.path, top.node),
+                  f"estimate {est} = tree count {tree_exact} >= exact count {exact} ({what_})",
+                  bad=f"estimate {est!r} for a larger model ({what_}): the tree has {tree_exact} configurations, {exact} of "
+                      f"them satisfy the constraints")
     # operation wrapper: execute() stores exactly the count of the model it was given
     ex = pm.method(opc, "execute")
     gr = pm.method(opc, "get_result")
